@@ -251,3 +251,11 @@ func Sample(cfg Config, schedule []int, body func(ex *Exec) string) []string {
 	ex, _ := runOne(cfg, schedule, nil, true, body)
 	return ex.Trace
 }
+
+// RunOnce executes body once under the scheduler with the default schedule (no exploration).
+func RunOnce(horizonS int, body func(ex *Exec) string) (failures []Failure, out string) {
+	active = 1
+	defer func() { active = 0 }()
+	ex, out := runOne(Config{HorizonS: horizonS}, nil, nil, false, body)
+	return ex.failures, out
+}
